@@ -567,11 +567,22 @@ def _levels_in_any_order(lev_arg, result, logarithmic):
     return None
 
 
+def _no_call(ctx, tfi, inst, outs):
+    """A valid request that never reaches the interpolation: a refusal is a finding, anything else no verdict."""
+    if outs and all(o.kind == "raise" for o in outs):
+        ctx.report("R08.4", tfi, inst, f"a valid request is refused with {outs[0].value}" + (f" ({outs[0].exc.msg})" if getattr(outs[0].exc, "msg", None) else "") + " before the interpolation is reached")
+    else:
+        ctx.unknown("R08.4", inst, "the interpolation is never reached")
+
+
 def _naming(ctx, P):
     tfi = P.func("transform:transform")
     # DataArray target: new dimension = the target's own single dimension
     try:
         outs, calls = run_transform(P, "linear")
+        if not calls:
+            _no_call(ctx, tfi, "new dimension for a DataArray target", outs)
+            return
         a = calls[0][1]
         if a[5] != Sym("lev") or not (isinstance(a[2], Obj) and a[2].name == "target"):
             ctx.report("R08.4", tfi, "new dimension for a DataArray target", f"target dimension {a[5]!r}; expected the target's own dimension")
@@ -580,6 +591,9 @@ def _naming(ctx, P):
         # bare array target: named after target_data
         bare = Obj("ndarray", "bare_levels", (), {"__isinstance__": ("ndarray",)})
         outs, calls = run_transform(P, "linear", target=bare)
+        if not calls:
+            _no_call(ctx, tfi, "new dimension for a bare-array target", outs)
+            return
         a = calls[0][1]
         tg = a[2]
         if a[5] != Sym("tdn") or not (isinstance(tg, Obj) and tg.name == "WRAPPED" and tg.attrs.get("dims") == (Sym("tdn"),) and tg.attrs.get("wrapped") is not None):
@@ -588,6 +602,9 @@ def _naming(ctx, P):
             ctx.ok("R08.4", "new dimension for a bare-array target", "named after target_data")
         # anonymous target_data: default name, caller's object untouched (C18)
         outs, calls = run_transform(P, "linear", target=bare, td_name=None)
+        if not calls:
+            _no_call(ctx, tfi, "anonymous target_data", outs)
+            return
         a = calls[0][1]
         if a[5] != "TRANSFORMED_DIMENSION":
             ctx.report("R08.4", tfi, "anonymous target_data", f"new dimension {a[5]!r}; the documented default is TRANSFORMED_DIMENSION")
@@ -595,6 +612,9 @@ def _naming(ctx, P):
             ctx.ok("R08.4", "anonymous target_data", "documented default name")
         # target_data omitted: the grid dataset's coordinate along the axis
         outs, calls = run_transform(P, "linear", target_data=None)
+        if not calls:
+            _no_call(ctx, tfi, "target_data omitted", outs)
+            return
         a = calls[0][1]
         th = a[1]
         if not (isinstance(th, Obj) and th.name == "grid_coordinate" and th.attrs.get("of") == "grid_ds" and th.attrs.get("key") == dimsym("AZ", "center")):
